@@ -74,6 +74,8 @@ def c06_scenarios(topo, origin, blocked_origin, fakes=None):
     # a UDP association keeps its control connection until it ends (here: by the udp idle timeout): nothing follows the success reply on it
     for up in ("direct", "upsocks5"):
         out.append(("udp-associate-idle", "socks5", up, lambda up=up: bb.socks5_connect(P5(up), ("ipv4", "0.0.0.0", 0), cmd=3), "ok", False))
+    # an association the listener cannot set up (the client names an address of the other family): a failed request like any other
+    out.append(("udp-associate-other-family", "socks5", "enforce", lambda: bb.socks5_connect(P5("enforce"), ("ipv6", "::1", 5000), cmd=3), "fail", True))
     out.append(("bind", "socks5", "direct", lambda: bb.socks5_connect(P5("direct"), T, cmd=2), "fail", True))
     out.append(("bind", "socks4", "direct", lambda: bb.socks4_connect(topo.ports[("socks4", "direct")], T, cmd=2), "fail", True))
     out.append(("unknown-cmd", "socks5", "direct", lambda: bb.socks5_connect(P5("direct"), T, cmd=9), "fail", True))
